@@ -143,8 +143,9 @@ class Gen(object):
             return ('ErrSimple', kind)
         if kind == 'ErrUnavailable':
             return (kind, cl(), i(), i())
-        if kind == 'ErrWriteTimeout':
-            wt = self.r.randrange(8)
+        if kind in ('ErrWriteTimeout', 'ErrWriteTimeout.cas'):
+            wt = 5 if kind.endswith('.cas') else self.r.randrange(8)
+            kind = 'ErrWriteTimeout'
             ct = some(self.r.choice([0, 1, 9, 65535])) if (wt == 5 and spec_cas_fields(pv)) else None
             return (kind, cl(), i(), i(), wt, ct)
         if kind == 'ErrReadTimeout':
@@ -220,7 +221,7 @@ class Gen(object):
         if pv >= 4:
             ek += ['ErrReadFailure', 'ErrFunctionFailure', 'ErrWriteFailure']
         if spec_cas_fields(pv):
-            ek += ['ErrCasWriteUnknown']
+            ek += ['ErrCasWriteUnknown', 'ErrWriteTimeout.cas']
         for k in ek:
             add('ERROR.' + k, lambda k=k: (('RError', self.err(pv, k), self.s()), None))
         add('SUPPORTED', lambda: (self.supported(), None))
@@ -243,6 +244,6 @@ def truncations(rng, body, how_many):
     if n <= how_many:
         cuts = list(range(n))
     else:
-        cuts = sorted(set([0, 1, 2, 3, n - 1, n - 2] + [rng.randrange(n) for _ in range(how_many)]))
+        cuts = sorted(set([0, 2, n - 1] + [rng.randrange(n) for _ in range(how_many)]))
         cuts = [c for c in cuts if 0 <= c < n]
     return [body[:c] for c in cuts]
